@@ -420,7 +420,9 @@ class Assembler:
 
             max_alignment = section.alignment.get(main_block, 0)
 
-            for extra_block in extra_blocks:
+            # Last one first: the CFI directives of each empty block are put in
+            # front of what the main block has collected so far.
+            for extra_block in reversed(extra_blocks):
                 assert isinstance(extra_block, gtirb.CodeBlock)
                 assert not extra_block.size
                 # An empty string directive (.ascii "") leaves an empty block
